@@ -357,6 +357,22 @@ func ruleDotStructure(c *Ctx) {
 			R.Ob(fmt.Sprintf("(*dataReader).Read/loop entry %s", phi.Comment), c.P.InstrPos(phi), ok, "loop-carried "+phi.Comment+" enters the loop as "+d)
 		}
 	}
+	// the reader's behaviour may depend on no memory other than the automaton state and the budget
+	allowedRead := map[string]bool{"r": true, "state": true, "limited": true, "n": true}
+	allowedWrite := map[string]bool{"state": true, "n": true}
+	for _, g := range withClosures(f) {
+		allInstrs(g, func(in ssa.Instruction) {
+			if fld, base, _ := storedField(in); fld != nil && strings.HasPrefix(fieldDesc(fld, base), "dataReader.") {
+				R.Ob(fmt.Sprintf("(*dataReader).Read/writes field %s", fld.Name()), c.P.InstrPos(in), allowedWrite[fld.Name()], "Read keeps memory in dataReader."+fld.Name()+" besides the automaton state and the budget: its result then depends on the history of calls (e.g. a remembered error makes the post-delivery drain a no-op)")
+			} else if v, ok := in.(ssa.Value); ok {
+				if fld, base := loadedField(v); fld != nil && strings.HasPrefix(fieldDesc(fld, base), "dataReader.") {
+					if !allowedRead[fld.Name()] {
+						R.Ob(fmt.Sprintf("(*dataReader).Read/reads field %s", fld.Name()), c.P.InstrPos(in), false, "Read consults dataReader."+fld.Name()+": its result depends on memory other than the automaton state and the budget")
+					}
+				}
+			}
+		})
+	}
 	// no reader calls / output stores outside the loop, reader field not leaked
 	nRead, bad := 0, ""
 	allInstrs(f, func(in ssa.Instruction) {
